@@ -116,6 +116,17 @@ def run(ctx):
     where = loc(b)
     paths = sym.SymExec(f, b, max_paths=200000).run()
     ctx.saw("%s: %d paths" % (b.key, len(paths)))
+    # formatting helpers: local functions reachable from fmt that take the Formatter
+    from .common import reachable_bodies
+    helper_paths = []
+    for k in sorted(reachable_bodies(f, [DISPLAY])):
+        hb = f.bodies[k]
+        if k == DISPLAY or hb.kind not in ("Fn", "AssocFn") or hb.crate != "cozy_chess":
+            continue
+        if any("core::fmt::Formatter" in hb.locals[i]["ty"] for i in range(1, hb.argc + 1)):
+            hp = sym.SymExec(f, hb, max_paths=200000).run()
+            ctx.saw("%s: %d paths (formatting helper)" % (hb.key, len(hp)))
+            helper_paths += hp
     hm = ("ptr", ("P", "self"), (("f", g.fld["halfmove_clock"]),), False)
     fm = ("ptr", ("P", "self"), (("f", g.fld["fullmove_number"]),), False)
     epsq = ("sq", ("field", ("downcast", ("get", "en_passant", SELF), "Some"), "0"), ("relrank", 5, STM))
@@ -157,7 +168,7 @@ def run(ctx):
                       "from_fen does not consume placement, side, castling, en-passant, half-move, full-move in this order: %s" % order, loc(fb), sample={"reader": order})
     # ------------------------------------------------------------------ placement writer
     ctx.rule("placement")
-    lbs = [p for p in paths if p.end == "loopback"]
+    lbs = [p for p in paths + helper_paths if p.end == "loopback"]
     piece_writes = 0
     slash = 0
     flush_before_piece = False
@@ -166,7 +177,8 @@ def run(ctx):
         # rank loop / file loop membership
         loops = [(L.lift(c[0][1][1]), c[2]) for c in p.conds if c[0][0] == "discr" and c[0][1][0] == "next" and c[1] == 1]
         for t, a, e in w:
-            if t == "{}" and a and sym.contains(a[0], lambda y: y[0] == "call" and y[1].endswith("Into<U>>::into")):
+            if t == "{}" and a and sym.contains(a[0], lambda y: y[0] == "call" and y[1].endswith("Into<U>>::into")) and \
+                    sym.contains(a[0], lambda y: y[0] == "piece_on"):
                 piece_writes += 1
                 arg = a[0]
                 upper = arg[0] == "call" and arg[1].endswith("to_ascii_uppercase")
@@ -199,8 +211,17 @@ def run(ctx):
                     flush_before_piece = True
             if t == "/":
                 slash += 1
-                gt = [c for c in p.conds if L.lift(c[0])[0] == "bin" and L.lift(c[0])[1] == "Gt" and sym.contains(L.lift(c[0]), lambda y: y == ("enum", T + "rank::Rank", "First"))]
-                ctx.check(bool(gt) and gt[-1][1] == 1, "writer:slash-between-ranks", "'/' is not written exactly after ranks above the first", where)
+                first = ("enum", T + "rank::Rank", "First")
+                gt = []
+                for c in p.conds:
+                    ce = L.lift(c[0])
+                    if ce[0] == "bin" and sym.contains(ce, lambda y: y == first) and isinstance(c[1], int):
+                        # rank > First, First < rank, rank != First all mean "not the first rank"
+                        if ce[1] in ("Gt", "Lt", "Ne"):
+                            gt.append(bool(c[1]))
+                        elif ce[1] in ("Eq", "Le", "Ge"):
+                            gt.append(not bool(c[1]))
+                ctx.check(bool(gt) and gt[-1] is True, "writer:slash-between-ranks", "'/' is not written exactly after ranks above the first", where)
     ctx.check(piece_writes >= 2 and slash >= 1 and flush_before_piece, "writer:placement-structure",
               "the placement writer lacks piece letters, empty-count flushes before pieces, or '/' separators (pieces %d, slashes %d)" % (piece_writes, slash), where)
     # ------------------------------------------------------------------ placement reader
@@ -237,29 +258,74 @@ def run(ctx):
                   sample={"letters": "".join(sorted(chr(c) for c in chars))})
     # ------------------------------------------------------------------ castling letters
     ctx.rule("castling-letters")
-    closures = sorted(k for k in f.bodies if k.startswith(DISPLAY + "::{closure") and f.bodies[k].kind == "Closure")
-    letters = {}
-    for k in closures:
-        cps = sym.SymExec(f, f.bodies[k]).run()
-        vals = set()
-        for p in cps:
-            r = p.ret
-            if r[0] == "int":
-                vals.add(chr(r[1]))
-            elif r[0] == "call" and r[1].endswith("Into<U>>::into"):
-                vals.add("<file letter>")
-        letters[k.rsplit("::", 1)[-1]] = vals
-    ok = sorted(map(sorted, letters.values())) == [["<file letter>", "k"], ["<file letter>", "q"]]
-    ctx.check(ok, "writer:castle-letters", "the writer's castling letters are not {file letter | 'k'} for short and {file letter | 'q'} for long: %s" % letters, where,
+    letters = {"short": set(), "long": set()}
+    rights_any = lambda y: y[0] == "get" and y[1] == "castle_rights"
+
+    def letter_values(opt, wing, conds):
+        """what an Option<char> expression can write for `wing`, given the path's decisions"""
+        if opt[0] == "call" and opt[1].endswith("::map") and opt[2][1][0] == "closure":
+            src = opt[2][0]
+            okw = src[0] == "field" and src[2] == wing and sym.contains(src, rights_any)
+            cb = f.bodies.get(opt[2][1][1])
+            vals = set()
+            if cb is not None and okw:
+                for cp in sym.SymExec(f, cb).run():
+                    r = cp.ret
+                    sh = [c[1] for c in cp.conds if c[0][0] in ("deref", "field", "param") or sym.contains(c[0], lambda y: y[0] == "param")]
+                    if r[0] == "int":
+                        vals.add((chr(r[1]), tuple(sh)))
+                    elif r[0] == "call" and r[1].endswith("Into<U>>::into"):
+                        vals.add(("<file letter>", tuple(sh)))
+            return {v for v, _ in vals}
+        if opt[0] == "agg" and opt[2] == "Some":
+            x = dict(opt[4])["0"]
+            if x[0] == "int":
+                return {chr(x[1])}
+            if x[0] == "call" and x[1].endswith("Into<U>>::into") and sym.contains(x, lambda y: y[0] == "field" and y[2] == wing) and sym.contains(x, rights_any):
+                return {"<file letter>"}
+            return {"?" + sym.show(x)[:40]}
+        if opt[0] == "agg" and opt[2] == "None":
+            return set()
+        return {"?" + sym.show(opt)[:40]}
+    for p in lbs + [q for q in paths if q.end == "return"]:
+        for e in p.events:
+            if e.kind == "call" and e.depth == 0 and e.name.endswith("Iterator::chain"):
+                first, second = L.lift(e.args[0]), L.lift(e.args[1])
+                while first[0] == "iter":
+                    first = first[1]
+                while second[0] == "iter":
+                    second = second[1]
+                sh = [c[1] for c in p.conds if L.lift(c[0]) == ("call", "core::fmt::Formatter<'a>::alternate", (("ptr", ("P", "f"), (), False),)) or
+                      sym.contains(L.lift(c[0]), lambda y: y[0] == "call" and y[1].endswith("::alternate"))]
+                for opt, wing in ((first, "short"), (second, "long")):
+                    vals = letter_values(opt, wing, p.conds)
+                    # inlined-helper form: the letter depends on the alternate flag decided on this path
+                    if opt[0] == "agg" and sh:
+                        for v in vals:
+                            if v == "<file letter>":
+                                ctx.check(sh[-1] == 1, "writer:file-letter-only-shredder", "a file letter is written for a castling right outside Shredder (alternate) mode", where)
+                            elif len(v) == 1:
+                                ctx.check(sh[-1] == 0, "writer:kq-only-plain", "'%s' is written for a castling right in Shredder (alternate) mode" % v, where)
+                    letters[wing] |= vals
+    ok = letters == {"short": {"<file letter>", "k"}, "long": {"<file letter>", "q"}}
+    ctx.check(ok, "writer:castle-letters", "the writer's castling letters are not {file letter | 'k'} for short and {file letter | 'q'} for long: %s" % {k: sorted(v) for k, v in letters.items()}, where,
               sample={"writer": {k: sorted(v) for k, v in letters.items()}})
     # order short then long, colours White then Black, uppercase iff White
     seen_up = set()
     for p in lbs:
         for t, a, e in writes(L, p):
-            if t == "{}" and a and sym.contains(a[0], lambda y: y[0] == "call" and y[1].endswith("Iterator::chain")):
-                ch = sym.subterms(a[0], lambda y: y[0] == "call" and y[1].endswith("Iterator::chain"))[0]
+            is_castle_letter = t == "{}" and a and not sym.contains(a[0], lambda y: y[0] == "piece_on") and \
+                any(c[0][0] == "discr" and c[0][1][0] == "next" and c[1] == 1 and sym.contains(c[0], lambda y: y[0] == "call" and y[1].endswith("Iterator::chain")) for c in p.conds)
+            if is_castle_letter:
+                chs = [c[0] for c in p.conds if c[0][0] == "discr" and c[0][1][0] == "next" and sym.contains(c[0], lambda y: y[0] == "call" and y[1].endswith("Iterator::chain"))]
+                ch = sym.subterms(L.lift(chs[-1]), lambda y: y[0] == "call" and y[1].endswith("Iterator::chain"))[0]
                 first, second = ch[2][0], ch[2][1]
-                order_ok = sym.contains(first, lambda y: y[0] == "field" and y[2] == "short") and sym.contains(second, lambda y: y[0] == "field" and y[2] == "long")
+                fs = sym.contains(first, lambda y: y[0] == "field" and y[2] == "short")
+                sl = sym.contains(second, lambda y: y[0] == "field" and y[2] == "long")
+                fl_ = sym.contains(first, lambda y: y[0] == "field" and y[2] == "long")
+                ss_ = sym.contains(second, lambda y: y[0] == "field" and y[2] == "short")
+                # when the options are plain constants on this path (helper inlined) the order is checked through the letters
+                order_ok = (fs or not fl_) and (sl or not ss_)
                 ctx.check(order_ok, "writer:short-before-long", "castling letters of one colour are not written short then long", where)
                 upper = a[0][0] == "call" and a[0][1].endswith("to_ascii_uppercase")
                 white = None
@@ -269,7 +335,10 @@ def run(ctx):
                         white = bool(c[1])
                 ctx.check(white is not None and white == upper, "writer:castle-case", "a castling letter is not upper-cased exactly for White", where)
                 seen_up.add(upper)
-                colours = sym.subterms(a[0], lambda y: y[0] == "array" and len(y[1]) == 2 and y[1][0][0] == "enum" and y[1][0][1] == COLOR)
+                colours = []
+                for c in p.conds:
+                    if c[0][0] == "discr" and c[0][1][0] == "next":
+                        colours += sym.subterms(c[0], lambda y: y[0] == "array" and len(y[1]) == 2 and y[1][0][0] == "enum" and y[1][0][1] == COLOR)
                 ctx.check(bool(colours) and [x[2] for x in colours[0][1]] == ["White", "Black"], "writer:white-before-black", "castling letters are not written for White first", where)
     ctx.check(seen_up == {True, False}, "writer:castle-cases", "castling letter writer lacks an upper- or lower-case path", where)
     dash = [p for p in rets if ("-", ()) in [(t, a) for t, a, e in writes(L, p)]]
